@@ -110,7 +110,8 @@ func (g *qgen) newVar(typ string, val interface{}, withDefault bool) string {
 	return name
 }
 
-var hostilePool = []string{"bell\a!", "vt\vx", "del\x7f", "soh\x01", "two  spaces", "three   spaces", "tab\tand  spaces", "q\"uote\\back", "nl\nline", "é  ü", "🙂", "plain"}
+var hostilePool = []string{"bell\a!", "vt\vx", "del\x7f", "soh\x01", "two  spaces", "three   spaces", "tab\tand  spaces", "q\"uote\\back", "nl\nline", "é  ü", "🙂", "plain",
+	"costs $v1 or $v2", "$v1"} // text that looks like a variable reference is still text
 
 func (g *qgen) str() string {
 	if g.o.hostile {
@@ -226,6 +227,9 @@ func (g *qgen) arguments(f *ast.FieldDefinition) string {
 		}
 		lit, val := g.literal(a.Type, 0)
 		if g.o.variables && g.p(0.4) {
+			if !a.Type.NonNull && g.p(0.25) {
+				val = nil // a variable the client sets to null explicitly is not the same as an absent one
+			}
 			v := g.newVar(a.Type.String(), val, false)
 			parts = append(parts, a.Name+": $"+v)
 		} else {
